@@ -503,3 +503,40 @@ mod if_std {
 
 #[cfg(feature = "std")]
 pub use self::if_std::*;
+
+#[cfg(all(futures_intrusive_verif, feature = "alloc"))]
+mod verif_hooks {
+    use super::*;
+    use crate::verif::{
+        snap_list, snap_list_node, waker_id, NodeSnap, Snapshot,
+    };
+
+    fn describe(entry: &WaitQueueEntry) -> (u8, Option<usize>, u64) {
+        let tag = match entry.state {
+            PollState::New => 0,
+            PollState::Waiting => 1,
+            PollState::Notified => 2,
+            PollState::Done => 3,
+        };
+        (tag, waker_id(&entry.task), 0)
+    }
+
+    impl<MutexType: RawMutex, T> GenericMutex<MutexType, T> {
+        /// Scalars: `[is_fair, is_locked]`, queue: waiters
+        pub fn verif_snapshot(&self) -> Snapshot {
+            let state = self.state.lock();
+            let mut snap = Snapshot::default();
+            snap.scalars.push(state.is_fair as u64);
+            snap.scalars.push(state.is_locked as u64);
+            snap_list(&state.waiters, &mut snap, &describe);
+            snap
+        }
+    }
+
+    impl<'a, MutexType: RawMutex, T> GenericMutexLockFuture<'a, MutexType, T> {
+        /// Describes the wait node of this future
+        pub fn verif_node(&self) -> NodeSnap {
+            snap_list_node(&self.wait_node, &describe)
+        }
+    }
+}
